@@ -102,6 +102,13 @@ IDENTITY_EXTRAS = [
         {'env': {'HOME_BIN': rng.choice(['~/bin', '~', 'a:~/b', '/x/~y']), 'PCT': '100%', 'U': 'Größe'}}),
     lambda rng, cfg: cfg['executors'][rng.choice(sorted(cfg['executors']))].update(
         {'env': {'LD': rng.choice(['~/lib', '/lib'])}}),
+    # maps with several keys written in non-alphabetical order (a dict is equal whatever the order)
+    lambda rng, cfg: cfg['benchmark_suites'][rng.choice(sorted(cfg['benchmark_suites']))].update(
+        {'env': dict(rng.sample([('ZED', 'z'), ('ALPHA', 'a'), ('MID', rng.choice(['m', '~/m'])), ('beta', 'b'),
+                                 ('Z9', '9')], rng.randint(2, 4)))}),
+    lambda rng, cfg: cfg['executors'][rng.choice(sorted(cfg['executors']))].update(
+        {'env': {'ZED_SETTING': '1', 'ALPHA_SETTING': '2'}}),
+    lambda rng, cfg: cfg['runs'].update({'env': {'Y': 'y', 'X': 'x', 'A': 'a'}}),
     lambda rng, cfg: cfg['benchmark_suites'][rng.choice(sorted(cfg['benchmark_suites']))].update(
         {'input_sizes': rng.choice([[1, '1', 2.5], ['a b', 'c'], [True, 3], ['~', '%%x']])}),
     lambda rng, cfg: cfg['benchmark_suites'][rng.choice(sorted(cfg['benchmark_suites']))].update(
@@ -130,6 +137,10 @@ IDENTITY_EXTRAS = [
     lambda rng, cfg: cfg['runs'].update({'ignore_timeouts': True, 'parallel_interference_factor': 2.5,
                                          'execute_exclusively': False}),
 ]
+
+
+# command-line overrides of invocations / iterations enter every run's identity (ExpRunDetails.*_override)
+CLI_OVERRIDES = [[], [], ['-in', '2'], ['-it', '3'], ['-in', '2', '-it', '3'], ['-in', '3', '-it', '3'], ['-in', '1']]
 
 
 def gen_identity_config(rng, for_sessions=False):
@@ -167,7 +178,7 @@ def identity_check(ck, n):
         wd = os.path.join(ck.scratch, 'id%d' % i)
         os.makedirs(wd)
         drive.write_config(wd, cfg)
-        argv = ['-m', 'm1'] if 'machines' in cfg else []
+        argv = rng.choice(CLI_OVERRIDES)
         try:
             probe = dp.Probe(wd, cfg, argv)
             fresh = dp.Probe(wd, cfg, argv)     # an independent compile: the configured keys of a later session
@@ -177,6 +188,8 @@ def identity_check(ck, n):
         for k, (run, run2) in enumerate(zip(probe.run_objs, fresh.run_objs)):
             if k >= 3:
                 break
+            run2._verif_argv = argv
+            ck.count('identity:cli-override' if argv else 'identity:no-cli-override')
             try:
                 bj, rj = bench_json(run2.benchmark), run_json(run2)
             except ValueError:
@@ -193,7 +206,7 @@ def identity_check(ck, n):
         ab, ar = answers[2 * n_case], answers[2 * n_case + 1]
         if 'err' in ab or 'err' in ar:
             raise lib.InfraError('model rejected an identity: %s %s' % (ab, ar))
-        inp = {'cfg': cfg, 'run': run2.cmdline()}
+        inp = {'cfg': cfg, 'run': run2.cmdline(), 'argv': getattr(run2, '_verif_argv', None)}
         env = run2.benchmark.run_details.env or {}
         has_tilde = any('~' in str(v) for v in env.values())
         ck.count('identity:env~' if has_tilde else 'identity:plain')
@@ -204,7 +217,8 @@ def identity_check(ck, n):
         try:
             rec = run.benchmark.as_dict()
             rec_run = run.as_dict(True)
-            text = json.dumps(rec, separators=(',', ':'), ensure_ascii=True)
+            from rebench.persistence import _to_json     # the serialisation the data file really gets
+            text = _to_json(rec)
             ser = True
         except TypeError:
             ser, rec_run, text = False, None, None
@@ -224,10 +238,21 @@ def identity_check(ck, n):
             if not same:
                 differ = describe_diff(back, run2.benchmark, fields)
                 env_differs = any(d.startswith('run_details.env') for d in differ)
+                if not differ:     # equal, but hashed differently: not found in the dictionaries of the loader
+                    for name, a, b in (('run_details', back.run_details, run2.benchmark.run_details),
+                                       ('suite.executor.run_details', back.suite.executor.run_details,
+                                        run2.benchmark.suite.executor.run_details),
+                                       ('variables', back.variables, run2.benchmark.variables),
+                                       ('suite', back.suite, run2.benchmark.suite)):
+                        if a == b and hash(a) != hash(b):
+                            differ.append('hash(%s) differs although equal; env order reloaded %r, configured %r' % (
+                                name, list((getattr(a, 'env', None) or {})), list((getattr(b, 'env', None) or {}))))
+                    differ = ['hash:' + d for d in differ] or ['hash: differs']
                 ck.oracle_fail('recognised', inp, {'fields_that_differ': differ,
                                                    'recorded_env': rec['runDetails'].get('env'), 'configured_env': env},
                                {'class': 'env_tilde' if (has_tilde and env_differs) else
-                                'field:' + (differ[0].split(':')[0] if differ else 'nested'), 'level': 'identity'})
+                                ('equal_but_hash_differs' if differ and differ[0].startswith('hash:') else
+                                 'field:' + (differ[0].split(':')[0] if differ else 'nested')), 'level': 'identity'})
             rr = dict(rec_run, benchmark_id=0)
             back_run = RunId.from_dict(json.loads(json.dumps(rr)), run2.benchmark)
             if not (back_run == run2 and hash(back_run) == hash(run2)):
@@ -478,7 +503,7 @@ def gen_history(rng):
         specs[0]['stop'] = rng.randint(1, 8)
     if n > 2 and rng.random() < 0.3:
         specs[1]['stop'] = rng.randint(1, 4)
-    scen = {'cfg': cfg, 'specs': specs, 'seed': rng.randint(0, 10 ** 9), 'argv': []}
+    scen = {'cfg': cfg, 'specs': specs, 'seed': rng.randint(0, 10 ** 9), 'argv': list(rng.choice(CLI_OVERRIDES))}
     if rng.random() < 0.25:
         scen['hostile'] = rng.choice([['me\tm'], ['me\rm'], ['me\tm', 'a\rb', 'x\ty\tz']])
     return scen
@@ -499,7 +524,7 @@ def session_check(ck, scens, tag):
     answers = ck.model(ops)
     for (scen, probe, outputs, build_ok, observed), ans in zip(items, answers):
         inp = {'cfg': scen['cfg'], 'specs': scen['specs'], 'seed': scen['seed'], 'argv': scen.get('argv', []),
-               'outputs': outputs, 'build_ok': build_ok}
+               'outputs': scen['outputs'], 'raw': scen.get('raw'), 'build_ok': build_ok}
         if scen.get('hostile'):
             inp['hostile'], inp['hostile_applied'] = scen['hostile'], True
         klass = scen.get('class') or history_class(scen['cfg'])
@@ -845,7 +870,7 @@ def replay(ck, data):
     elif 'harness_output' in inp:
         special_history(ck, 'replay', data)
     elif 'specs' in inp:
-        scen = {k: inp[k] for k in ('cfg', 'specs', 'seed', 'argv', 'outputs', 'build_ok') if k in inp}
+        scen = {k: inp[k] for k in ('cfg', 'specs', 'seed', 'argv', 'outputs', 'raw', 'build_ok', 'hostile', 'hostile_applied') if k in inp}
         if scen.get('outputs'):
             scen['outputs'] = [[None if o is None else [[tuple(m) for m in d] for d in o] for o in per]
                                for per in scen['outputs']]
